@@ -444,6 +444,42 @@ def h_codec_w(crc: int, off: int, alen: int, ai: int, crc2: int, pre: int, none_
         raise Fail("reached")
 
 
+def h_codec_names(which: int, fill: int, L: int) -> None:
+    """Directory tree strings of any length survive write_dirfile -> load_dirfile: one component (folder / name / extension,
+    solver-chosen) is L characters long (L concrete per slice, around the powers of two where block-wise readers have their
+    boundaries), next to short neighbours; listing, lookup and the fields of every entry are unchanged after reopening."""
+    import srctools.vpk as V
+    assume(0 <= which <= 2 and 0 <= fill <= 2)
+    ch = "a" if fill == 0 else ("q" if fill == 1 else "0")
+    long = ch * (L - 1) + "z"
+    parts = [("mat", "x", "vmt"), ("", "y", "vmt")]
+    target = ["mat/dev", "alpha", "cfg"]
+    target[which] = long
+    fs = _install()
+    vpk = V.VPK(DIR_PATH, mode="w")
+    infos = []
+    for k, pr in enumerate([parts[0], tuple(target), parts[1]]):
+        f = vpk.new_file(pr)
+        f.crc, f.start_data = 1000 + k, PATS[k][:k + 1]
+        infos.append((pr, f.filename))
+    vpk.footer_data = b"FOOT"
+    vpk.write_dirfile()
+    back = V.VPK(DIR_PATH, mode="r")
+    check(len(back) == 3, "entry count after reopening", len(back), L)
+    check(sorted(f.filename for f in back) == sorted(n for _p, n in infos), "listing after reopening", sorted(f.filename for f in back))
+    for k, (pr, fname) in enumerate(infos):
+        check(pr in back and fname in back, "stored name not found after reopening", pr, L)
+        g = back[pr]
+        check(g.crc == 1000 + k and g.start_data == PATS[k][:k + 1] and g.filename == fname, "entry fields after reopening", pr, g.crc)
+    check(back.footer_data == b"FOOT", "data section", back.footer_data)
+
+
+def h_codec_names_w(which: int, fill: int, L: int) -> None:
+    h_codec_names(which, fill, L)
+    if which == 1 and fill == 2:
+        raise Fail("reached")
+
+
 # ---------------------------------------------------------------- obligations
 
 def _pin(sl):
@@ -538,6 +574,10 @@ def obligations(tier):
         Obl("names.witness", MOD, "h_names_w", slices=[{"nf": 1, "nn": 1, "ne": 1}, {"nf": 1, "nn": 0, "ne": 1}], budget_s=120, per_path_s=60, witness=True),
         Obl("listed", MOD, "h_listed", slices=_name_slices(tier), budget_s=600 if q else 2400, per_path_s=60,
             desc="FileInfo.filename of a stored file resolves to the same key again", bound="exact lengths per slice"),
+        Obl("codec.names", MOD, "h_codec_names", slices=[{"L": n} for n in ((1, 2, 63, 64, 65, 128, 256) if q else (1, 2, 3, 31, 32, 33, 63, 64, 65, 127, 128, 129, 255, 256, 257, 1000))],
+            budget_s=600, per_path_s=120, desc="a folder / name / extension of L characters survives write_dirfile -> load_dirfile (tree strings of any length)",
+            bound="L concrete per slice (around powers of two); which component and the fill character are solver-chosen"),
+        Obl("codec.names.witness", MOD, "h_codec_names_w", slices=[{"L": 64}], budget_s=300, per_path_s=120, witness=True),
         Obl("codec", MOD, "h_codec", slices=[{"pre": p} for p in (0, 1, 2)], budget_s=600, per_path_s=60,
             desc="directory entry encode/decode keeps crc, offset, archive length/index and preload bytes for all field values",
             bound="all 32-bit crc/offset/length, all archive indexes < 0x7fff or None"),
